@@ -33,6 +33,7 @@ def main():
     ap.add_argument("--tier", default="quick")
     ap.add_argument("--jobs", default="8")
     ap.add_argument("--skip-baseline", action="store_true")
+    ap.add_argument("--no-check", action="store_true", help="only confirm the change (demo + baseline); do not run the check")
     a = ap.parse_args()
     prop = a.prop.upper()
     d = os.path.abspath(a.dir)
@@ -60,6 +61,8 @@ def main():
                 p = sh(["/venv/bin/python", os.path.join(ROOT, "tools", "baseline.py"), wt], timeout=1800)
                 res["baseline_ok"] = p.returncode == 0
                 res["baseline_tail"] = p.stdout.decode()[-200:]
+            if a.no_check:
+                raise StopIteration
             cenv = dict(os.environ, VERIF_REPO_SRC=os.path.join(wt, "src"), VERIF_JOBS=a.jobs)
             p = sh([os.path.join(ROOT, "check"), prop, "--tier", a.tier], cwd=ROOT, env=cenv, timeout=7200)
             out = p.stdout.decode("utf8", "replace")
@@ -67,9 +70,11 @@ def main():
             res["check_caught"] = p.returncode == 1 and ("VIOLATION property=%s" % prop) in out
             res["check_keys"] = [ln.strip()[:200] for ln in out.splitlines() if ln.strip().startswith("key=")][:6]
             res["check_tail"] = out[-400:]
+    except StopIteration:
+        pass
+    finally:
         res["confirmed"] = bool(res.get("demo_clean_rc") == 0 and res.get("patch_applies") and
                                 res.get("demo_patched_rc", 0) != 0 and res.get("baseline_ok", a.skip_baseline))
-    finally:
         sh(["git", "-C", "/repo", "worktree", "remove", "--force", wt])
         shutil.rmtree(wt, ignore_errors=True)
         for n in os.listdir(os.path.join(ROOT, ".build")) if os.path.isdir(os.path.join(ROOT, ".build")) else []:
@@ -88,7 +93,7 @@ def main():
                 "ran": "./check %s --tier %s with VERIF_REPO_SRC=<patched worktree>/src" % (prop, a.tier),
                 "caught_by_check": res.get("check_caught"), "violation_keys": res.get("check_keys")}
         json.dump(meta, open(os.path.join(dst, "meta.json"), "w"), indent=1)
-    sys.exit(0 if res.get("confirmed") and res.get("check_caught") else 1)
+    sys.exit(0 if res.get("confirmed") and (res.get("check_caught") or a.no_check) else 1)
 
 
 if __name__ == "__main__":
